@@ -658,7 +658,7 @@ def run(ctx):
         "every module's weight vector has a constant length (Chan.wlen, true of all artlib modules); the model "
         "cuts fused weights at the positions derived from these lengths, as the code does since 9bccfb4",
     ]
-    histories(ctx, ctx.scale(1000, 8000), ctx.scale(14, 40))
-    oracle_channelwise(ctx, ctx.scale(900, 7000), ctx.scale(12, 40))
-    oracle_single(ctx, ctx.scale(480, 4000), ctx.scale(12, 40))
-    oracle_perm(ctx, ctx.scale(600, 5000), ctx.scale(12, 40))
+    histories(ctx, ctx.scale(700, 6000), ctx.scale(14, 40))
+    oracle_channelwise(ctx, ctx.scale(640, 5000), ctx.scale(12, 40))
+    oracle_single(ctx, ctx.scale(320, 3000), ctx.scale(12, 40))
+    oracle_perm(ctx, ctx.scale(400, 3500), ctx.scale(12, 40))
